@@ -23,8 +23,9 @@ def result_event(obs, fs, tag):
     from .oracle import standard_result_facts
 
     ns = fs.ns
+    counts = obs.counts(ns)        # (timers are read before the oracle spends time)
     facts = standard_result_facts(fs, obs)
-    obs.em.emit(tag, **facts, **obs.counts(ns))
+    obs.em.emit(tag, **facts, **counts)
 
 
 def main():
